@@ -99,7 +99,8 @@ def gen_trace(seed, config, prop, tier):
         if open_handles and r_f.random() < 0.4:
             steps.append({"fault": "release", "handle": r_f.randrange(8)})
         i += 1
-    return {"kind": "mesh", "prop": prop, "config": config, "seed": seed, "inputs": inputs, "steps": steps}
+    return {"kind": "mesh", "prop": prop, "config": config, "seed": seed, "inputs": inputs, "steps": steps,
+            "release_order": r_f.choice(["fifo", "lifo"])}
 
 
 # ------------------------------------------------------------------ executor
